@@ -75,7 +75,7 @@ macro_rules! exec_op {
                 // source value at (x, y) is always id0 + y*(sw+2) + x + 1;
                 // the kind of source object rotates
                 let val = |x: u32, y: u32| id0 + (y * (sw + 2) + x + 1) as u64;
-                match $srck % 5 {
+                match $srck % 6 {
                     0 => {
                         // a strided window of another buffer
                         let src = Buf2::new_with((sw + 2, sh + 1), |x, y| id0 + (y * (sw + 2) + x) as u64);
@@ -95,6 +95,14 @@ macro_rules! exec_op {
                         // a mutable view of another buffer
                         let mut src = Buf2::new_with((sw + 1, sh + 2), |x, y| if y == 0 { 7 } else { val(x, y - 1) });
                         $v.copy_from(src.slice_mut((0..sw, 1..1 + sh)));
+                    }
+                    4 => {
+                        // a contiguous multi-row view (stride == width) over data with a
+                        // surplus tail of up to two rows: what a whole-slice fast path
+                        // between two contiguous views would copy too much of
+                        let len = (sw * sh + [1, sw.max(1), 2 * sw.max(1) + 1][($srck / 6 % 3) as usize]) as usize;
+                        let data: Vec<u64> = (0..len as u32).map(|i| if sw > 0 && i < sw * sh { val(i % sw, i / sw) } else { 9 }).collect();
+                        $v.copy_from(Slice2::new((sw, sh), sw, &data[..]));
                     }
                     _ => {
                         // Slice2::new over data with a large stride and surplus tail
@@ -277,6 +285,9 @@ pub enum Op {
 fn shape_norm(o: &Obs) -> Obs {
     match o {
         Obs::Shape(w, h, e, _, _) if *h < 2 || *w == 0 => Obs::Shape(*w, *h, *e, 0, true),
+        // is_contiguous() only gates fast paths (a conservative answer is
+        // harmless and the statement does not mention it): never compared
+        Obs::Shape(w, h, e, s, _) => Obs::Shape(*w, *h, *e, *s, true),
         other => other.clone(),
     }
 }
@@ -421,8 +432,11 @@ fn reversed_in_bounds_hop(st: &Store, path: &[Form]) -> bool {
             }
             None => {
                 let Some((l, t, r, b)) = p.resolve(cw, ch) else { return false };
+                // reversed with all bounds inside, or empty on some axis (l ≥ r
+                // or t ≥ b) wherever it lies: no cell is addressed
                 let inside = l <= cw as u64 && r <= cw as u64 && t <= ch as u64 && b <= ch as u64;
-                return k + 1 == path.len() && inside && (l > r || t > b);
+                let empty = l >= r || t >= b;
+                return k + 1 == path.len() && ((inside && (l > r || t > b)) || empty);
             }
         }
     }
@@ -519,7 +533,7 @@ impl Hist {
             // inside the view is not "an access outside the view's bounds":
             // the statement does not say it must panic. Accepted: a panic, or
             // an empty view (no cell addressed); either way nothing is written.
-            rep.count("reversed_in_bounds_slicing(panic or empty view accepted)");
+            rep.count("reversed_or_empty_slicing_addressing_no_cell(panic or empty view accepted)");
             let ro = with_ro(&self.st, path, &mut |v: &Slice2<u64>| v.dims());
             if let Ok((w, h)) = ro {
                 if w != 0 && h != 0 {
@@ -1051,6 +1065,12 @@ fn constructor_case(rng: &mut Rng, rep: &mut Report) {
     rep.case(hs.get(), true);
     let need = if w == 0 || h == 0 { 0 } else { (h as usize - 1) * stride as usize + w as usize };
     let fits = w <= stride && need <= len;
+    // "reject dimensions the data cannot hold": a view of at most one
+    // non-empty row whose data does hold it (need ≤ len) although width >
+    // stride is held by the data — the stride addresses nothing there — and
+    // the documented contract rejects it: either outcome is accepted. Likewise
+    // an empty view (no cell at all) may be accepted or rejected on its stride.
+    let either = need <= len && ((w > stride && (h <= 1 || w == 0)) || w == 0 || h == 0);
     let data: Vec<u64> = (0..len as u64).collect();
     let r = catch(|| Slice2::new((w, h), stride, &data[..]).dims());
     let mut data2 = data.clone();
@@ -1058,6 +1078,15 @@ fn constructor_case(rng: &mut Rng, rep: &mut Report) {
     rep.count("constructor.cases");
     let cj = || Json::obj().set("dims", format!("({w},{h})")).set("stride", stride).set("data_len", len);
     for (r, name) in [(r, "Slice2::new"), (r2, "MutSlice2::new")] {
+        if either {
+            rep.count("constructor.outcome_left_free(one-row or empty view)");
+            if let Ok(d) = r {
+                if d != (w, h) {
+                    rep.violation("buf.constructor_wrong_dims", format!("{name} reports dims {d:?}"), cj());
+                }
+            }
+            continue;
+        }
         match (r, fits) {
             (Ok(d), true) => {
                 if d != (w, h) {
@@ -1110,7 +1139,9 @@ fn constructor_case(rng: &mut Rng, rep: &mut Report) {
         match b {
             Ok((d, v, st, cont)) => {
                 rep.count("constructor.contents_checked");
-                if d != (w, h) || st != w || !cont || v != (100..100 + n).collect::<Vec<u64>>() {
+                let shape_ok = h < 2 || w == 0 || st == w;
+                let _ = cont;
+                if d != (w, h) || !shape_ok || v != (100..100 + n).collect::<Vec<u64>>() {
                     rep.violation("buf.constructor_wrong_contents", format!("Buf2::new_from(({w},{h}), 100..): dims {d:?} stride {st} contiguous {cont}, data {:?}…", &v[..v.len().min(8)]), cj());
                 }
             }
